@@ -63,7 +63,10 @@ PROJECTS = {
                     ('zc.impl', 'from zope.interface import implementer, moduleProvides, classImplements\nfrom zc.ifaces import IPlugin, IOther\n'
                                 'moduleProvides(IPlugin)\n@implementer(IPlugin, IOther)\nclass P1:\n    pass\nclass P2:\n    pass\nclassImplements(P2, IPlugin)\n'
                                 # an interface from a module of the package that is not part of the run (generated at build time), named first
-                                'from zc._generated import IGen\n@implementer(IGen, IOther, IPlugin)\nclass P3:\n    pass\n', False)],
+                                'from zc._generated import IGen\n@implementer(IGen, IOther, IPlugin)\nclass P3:\n    pass\n'
+                                # the same call inside a function and a method body creates nothing that is documented
+                                'from zc.ifaces import PluginInterfaceClass\ndef make():\n    ILocal = PluginInterfaceClass("ILocal")\n    return ILocal\n'
+                                'class Registry:\n    def build(self):\n        IInner = PluginInterfaceClass("IInner")\n        return IInner\n', False)],
 }
 
 
@@ -244,7 +247,7 @@ def _check_paths(case):
     from pydoctor import model
     d = tempfile.mkdtemp(prefix='c02.', dir='/var/tmp')
     try:
-        files = {'shop/__init__.py': '"""Shop."""\n', 'shop/cart.py': 'class Cart:\n    def add(self): pass\n', 'shop/sub/__init__.py': '',
+        files = {'shop/__init__.py': '"""Shop."""\n', 'shop/cart.py': 'class Cart:\n    def add(self): pass\n', 'shop/sub/__init__.py': 'class InSub:\n    def m(self): pass\n    def m(self): pass\ndef only_in_first(): pass\n', 'shop/sub/inner/__init__.py': 'class Inner: pass\n', 'shop/sub/inner/leaf.py': 'def leaf(): pass\n',
                  'shop/sub/deep.py': 'from shop.cart import Cart\nclass Deep(Cart): pass\n', 'solo.py': 'import shop.cart\nclass S(shop.cart.Cart): pass\n',
                  # a second package of the same name in another directory (the later one replaces the earlier one)
                  'other/shop/__init__.py': '"""Other shop."""\nclass Till: pass\n', 'other/shop/extra.py': 'def pay(): pass\n',
